@@ -25,8 +25,8 @@ def rule_of(pid):
 
 CHECKS = {
     "C01": hist("TestC01", 6000, 40, 20000, 60,
-                extra_quick=[{"test": "TestScaleC01", "checks": 1, "shards": 4, "timeout": 600}, {"test": "TestC01", "variant": "386", "checks": 1500, "steps": 40, "timeout": 600}, {"test": "TestClosureC01", "timeout": 600}],
-                extra_thorough=[{"test": "TestScaleC01", "checks": 3, "shards": 8, "timeout": 1800}, {"test": "TestC01", "variant": "386", "checks": 10000, "steps": 60, "shards": 2, "timeout": 3000}],
+                extra_quick=[{"test": "TestC01RuneProbes", "checks": 3000, "timeout": 600}, {"test": "TestScaleC01", "checks": 1, "shards": 4, "timeout": 600}, {"test": "TestC01", "variant": "386", "checks": 1500, "steps": 40, "timeout": 600}, {"test": "TestClosureC01", "timeout": 600}],
+                extra_thorough=[{"test": "TestC01RuneProbes", "checks": 30000, "timeout": 1200}, {"test": "TestScaleC01", "checks": 3, "shards": 8, "timeout": 1800}, {"test": "TestC01", "variant": "386", "checks": 10000, "steps": 60, "shards": 2, "timeout": 3000}],
                 kf_test="TestKF_C01",
                 essential=["absent_proper_prefix_of_stored", "absent_shares_prefix_gt10", "reinsert_after_delete",
                            "has_node16", "has_node48", "has_node256", "lost_node48", "lost_node256", "inspath_pathsplit_long"]),
@@ -65,7 +65,8 @@ CHECKS = {
     "C13": hist("TestC13", 5000, 40, 12000, 60,
                 essential=["arena_spare_calls", "range", "prefix"]),
     "C14": hist("TestC14", 2000, 40, 5000, 60,
-                extra_quick=[{"test": "TestClosureC14", "timeout": 600}],
+                extra_quick=[{"test": "TestScaleC14", "checks": 1, "shards": 6, "timeout": 900}, {"test": "TestClosureC14", "timeout": 600}],
+                extra_thorough=[{"test": "TestScaleC14", "checks": 3, "shards": 8, "timeout": 2400}],
                 essential=["iter_nontrivial_all", "iter_nontrivial_backward", "iter_nontrivial_prefix", "iter_nontrivial_range",
                            "iter_nontrivial_topk", "iter_nontrivial_bottomk"]),
     "C15": hist("TestC15", 3000, 40, 6000, 60,
@@ -99,8 +100,12 @@ CHECKS = {
     "C16": {
         "kind": "go", "replay_variant": "race", "maxpar": 4,
         "quick": [{"test": "TestC16", "variant": "race", "checks": 300, "timeout": 900, "env": {"GORACE": "halt_on_error=1"},
-                   "wa_env": "VERIF_C16_WRITEAHEAD", "race_is_violation": True}],
-        "thorough": [{"test": "TestC16", "variant": "race", "checks": 3000, "shards": 4, "timeout": 3000, "env": {"GORACE": "halt_on_error=1"},
+                   "wa_env": "VERIF_C16_WRITEAHEAD", "race_is_violation": True},
+                  {"test": "TestC16Hammer", "variant": "plain", "checks": 8, "scale": 3, "timeout": 900},
+                  {"test": "TestC16Hammer", "variant": "race", "checks": 2, "timeout": 900, "env": {"GORACE": "halt_on_error=1"}, "race_is_violation": True}],
+        "thorough": [{"test": "TestC16Hammer", "variant": "plain", "checks": 20, "scale": 2, "shards": 2, "timeout": 2400},
+                     {"test": "TestC16Hammer", "variant": "race", "checks": 4, "timeout": 2400, "env": {"GORACE": "halt_on_error=1"}, "race_is_violation": True},
+                     {"test": "TestC16", "variant": "race", "checks": 3000, "shards": 4, "timeout": 3000, "env": {"GORACE": "halt_on_error=1"},
                       "wa_env": "VERIF_C16_WRITEAHEAD", "race_is_violation": True}],
         "essential": ["part_A", "part_B", "overlapped", "pool_traffic_on_2_goroutines", "gomaxprocs_1", "gomaxprocs_16"],
         "assumptions": ["schedules are sampled (GOMAXPROCS, Gosched injection, repetition), not enumerated; the verdict relies on the race detector's happens-before analysis, which only sees accesses that execute in the sampled run",
